@@ -1,6 +1,6 @@
 """Claim table from which MANIFEST.json is generated (tools/gen_manifest.py)."""
 TECH = "contract-based deductive verification: VCs generated from the real functions' ASTs (pyvc), discharged by z3 / cvc5 / an exact field normaliser (and the Lean 4 kernel for two shape-independent lemmas, C05 and C11)"
-COMMON_NOTE = ("Trusted: the pyvc interpreter/VC generator, z3, CPython's ast; Python semantics assumptions A1-A9 (ints exact, floats as reals, dict order as ghost enumeration, modelled exception sources); "
+COMMON_NOTE = ("Trusted: the pyvc interpreter/VC generator, z3, CPython's ast; Python semantics assumptions A1-A12 (ints exact, floats as reals, dict order as ghost enumeration, modelled exception sources, fold extensionality lemma, materialised iterators); "
                "bounded stand-ins (native runs of the same contracts on seeded inputs) are reported separately and never counted as proved. ")
 
 CLAIMS = {
@@ -112,8 +112,14 @@ for _k in CLAIMS:
     if _os.path.exists(_os.path.join(_os.path.dirname(_os.path.dirname(_os.path.abspath(__file__))), "audit", "round5_strengthening", _k + ".md")):
         CLAIMS[_k]["text"] = CLAIMS[_k]["text"] + " " + (ROUND5 % _k)
 
+ROUND6 = ("False-alarm round (audit/benign/%s.md): behaviour-preserving edits of chempy written by an independent tester stay quiet (mutants/benign/%s_*.diff, "
+          "tools/selftest_benign_diffs.sh; known exit-2 answers in mutants/benign/EXPECTED.tsv); proof aids (loop invariants, helper contracts, stand-ins) are bound by role / shape, "
+          "not by the spelling of the code.")
+for _k in CLAIMS:
+    CLAIMS[_k]["text"] = CLAIMS[_k]["text"] + " " + (ROUND6 % (_k, _k))
+
 _PENDING = "contracts for this property are not built yet in this round (work in progress; see DESIGN.md section 7 for the plan)"
 NOT_APPLICABLE = {p: _PENDING for p in ["C%02d" % i for i in range(1, 21)] if p not in CLAIMS}
 
-NOTES = ("All checks are `./vcheck <ID>`; exit 0 held / 1 VIOLATION (counter-model replayed on the real code, or a baseline-discharged havoc-free obligation now failing: no-failing-input-found) / "
-         "2 UNDECIDED (solver unknown, unsupported construct, stale contract) / 3 checker error. Obligations are tagged unbounded / shape-bounded / data in every evidence file.")
+NOTES = ("All checks are `./vcheck <ID>`; exit 0 held / 1 VIOLATION (counter-model replayed on the real code, or a baseline-discharged havoc-free obligation now failing whose model cannot be replayed: no-failing-input-found) / "
+         "2 UNDECIDED (solver unknown, unsupported construct, stale contract, counter-model that replays fine on the real code) / 3 checker error. Obligations are tagged unbounded / shape-bounded / data in every evidence file.")
